@@ -128,7 +128,8 @@ def dw_common(c, v):
 
 
 def dw_requires(c):
-    return [('machine-ok', machine_ok(c.o.machine)), ('task-ok', task_ok(c.o.self)),
+    return [('C04-task-is-scheduled-when-its-execution-starts', c.o.self.task_status.t == TS('SCHEDULED')),
+            ('machine-ok', machine_ok(c.o.machine)), ('task-ok', task_ok(c.o.self)),
             ('duration-nonneg', c.o.self.duration.t >= 0)] + wait_requires(c)
 
 
@@ -184,5 +185,5 @@ REG.contract('Task.do_work',
     ensures=dw_ensures, step=dw_step,
     modifies=['heap:Task.task_status', 'heap:Task.ast', 'heap:Task.aft', 'heap:Task.duration', 'heap:Task.delay_flag',
               'heap:Task.delay_offset'],
-    props=['C06', 'C03', 'C15'],
+    props=['C06', 'C03', 'C15', 'C01', 'C02', 'C04'],
     note="predecessor_allocations=None is modelled as the empty list (only its truthiness and iteration are used)")
